@@ -162,7 +162,7 @@ def e_Dict(self, st, node):
 
 
 def e_Lambda(self, st, node):
-    return [(st, "val", ("lambda", id(node)))]
+    return [(st, "val", self.make_closure(st, node, "<lambda>"))]
 
 
 def e_IfExp(self, st, node):
@@ -944,7 +944,17 @@ def e_Starred(self, st, node):
 
 
 def e_Yield(self, st, node):
-    raise U(self)("yield at %s" % self.loc(node))
+    if not getattr(self, "eager_generators", False):
+        raise U(self)("yield at %s" % self.loc(node))
+    res = []
+    outs = self.eval(st, node.value) if node.value is not None else [(st, "val", None)]
+    for (s, k, v) in outs:
+        if k == "val":
+            s.frames[-1]["@yield"] = tuple(s.frames[-1].get("@yield", ())) + (v,)
+            res.append((s, "val", None))
+        else:
+            res.append((s, k, v))
+    return res
 
 
 def e_Await(self, st, node):
